@@ -236,4 +236,70 @@ theorem ReachN.bound {s0 s : Sys} {n : Nat} (h : ReachN s0 n s) : n + s.measure 
   | init => simp
   | step _ hs ih => have := step_decreases hs; omega
 
+
+/-! ### join first -/
+
+structure InvJ (cap : Nat) (O E : List Nat) (c : Nat) (s : SysJ) : Prop where
+  cap_eq : s.cap = cap
+  outB : s.outQ ++ s.toOut = O
+  errB : s.errQ ++ s.toErr = E
+  code_eq : s.exitCode = c
+  prog_cases : (s.prog = joinProgram ∧ s.outRd = true ∧ s.errRd = true ∧ s.reaped = none) ∨
+    (s.cPhase = .exited ∧ s.reaped = some c ∧
+      (s.prog = [.closeOut, .closeErr, .closeIn] ∨ s.prog = [.closeErr, .closeIn] ∨ s.prog = [.closeIn] ∨ s.prog = []))
+  not_sig : s.cPhase ≠ .signalled
+  past_out : s.cPhase ≠ .writingOut → s.toOut = []
+  exited_done : s.cPhase = .exited → s.toErr = []
+
+theorem InvJ.init (cap : Nat) (O E : List Nat) (c : Nat) : InvJ cap O E c (SysJ.init cap joinProgram O E c) := by
+  constructor <;> simp [SysJ.init]
+
+theorem InvJ.step {cap : Nat} {O E : List Nat} {c : Nat} {s s' : SysJ} (h : InvJ cap O E c s) (hs : StepJ s s') :
+    InvJ cap O E c s' := by
+  obtain ⟨h1, h2, h3, h4, h5, h6, h7, h8⟩ := h
+  cases hs <;> constructor <;> simp_all [joinProgram] <;> grind
+
+theorem InvJ.reach {cap : Nat} {O E : List Nat} {c : Nat} {s : SysJ}
+    (h : ReachJ (SysJ.init cap joinProgram O E c) s) : InvJ cap O E c s := by
+  induction h with
+  | init => exact InvJ.init cap O E c
+  | step _ hs ih => exact ih.step hs
+
+theorem progressJ {cap : Nat} {O E : List Nat} {c : Nat} {s : SysJ} (h : InvJ cap O E c s)
+    (hO : O.length ≤ cap) (hE : E.length ≤ cap) (hp : s.prog ≠ []) : ∃ s', StepJ s s' := by
+  obtain ⟨h1, h2, h3, h4, h5, h6, h7, h8⟩ := h
+  rcases h5 with ⟨hprog, hor, her, _⟩ | ⟨_, _, hprog⟩
+  · cases hc : s.cPhase with
+    | signalled => exact absurd hc h6
+    | exited => exact ⟨_, StepJ.pWaitExited s _ hprog hc⟩
+    | writingOut =>
+      by_cases hto : s.toOut = []
+      · exact ⟨_, StepJ.cDoneOut s hc hto⟩
+      · have hl : s.outQ.length + s.toOut.length = O.length := by rw [← h2]; simp
+        have hpos : 0 < s.toOut.length := by cases hh : s.toOut <;> simp_all
+        exact ⟨_, StepJ.cWriteOut s 1 hc hor (by omega) (by omega) (by omega)⟩
+    | writingErr =>
+      by_cases hte : s.toErr = []
+      · exact ⟨_, StepJ.cExit s hc hte⟩
+      · have hl : s.errQ.length + s.toErr.length = E.length := by rw [← h3]; simp
+        have hpos : 0 < s.toErr.length := by cases hh : s.toErr <;> simp_all
+        exact ⟨_, StepJ.cWriteErr s 1 hc her (by omega) (by omega) (by omega)⟩
+  · rcases hprog with e | e | e | e
+    · exact ⟨_, StepJ.pCloseOut s _ e⟩
+    · exact ⟨_, StepJ.pCloseErr s _ e⟩
+    · exact ⟨_, StepJ.pCloseIn s _ e⟩
+    · exact absurd e hp
+
+theorem stepJ_decreases {s s' : SysJ} (hs : StepJ s s') : s'.measure < s.measure := by
+  cases hs <;> simp_all [SysJ.measure, jRank, List.length_drop] <;> omega
+
+theorem joinedJ {cap : Nat} {O E : List Nat} {c : Nat} {s : SysJ} (h : InvJ cap O E c s) (hp : s.prog = []) :
+    s.reaped = some c ∧ s.cPhase = .exited ∧ s.outQ = O ∧ s.errQ = E := by
+  obtain ⟨h1, h2, h3, h4, h5, h6, h7, h8⟩ := h
+  rcases h5 with ⟨hprog, _⟩ | ⟨hex, hr, _⟩
+  · simp [hp, joinProgram] at hprog
+  · have hto := h7 (by rw [hex]; decide)
+    have hte := h8 hex
+    simp_all
+
 end Nstd.Args.Kernel
